@@ -8,6 +8,14 @@ import H3.Drv.FaultOp
       itself, `strict`); `close` is called exactly when the error was detected locally (by h3
       itself, or inside the QUIC trait implementation: `InternalError`), once, with exactly that
       error's code, before the error is first reported; otherwise never.
+      Reading R-05: the sentence is about the connection's *outcome*, i.e. about the call that closes the
+      QUIC connection — the first one.  That one is judged strictly (above).  A `close` the
+      APPLICATION triggers afterwards by dropping the driver object (`<task>.D=ok`; `Drop for
+      server::Connection` calls `close(H3_NO_ERROR)`) reaches a connection that is closed already and
+      cannot change what the peer sees (RFC 9000 §10.2: the closing state is final; Quinn:
+      `close_inner` returns at once when `was_closed`): it is accepted — once, only behind the drop, no
+      opinion on its code — and is not counted among the error path's calls; every other later `close`
+      stays a violation (`close-after-the-error-was-reported`, `second-close`).
     * C04 / RFC 9114 §6.2.1 — the endpoint's control stream stopped by the peer (or broken) is
       H3_CLOSED_CRITICAL_STREAM, raised by the call that meets it (the next call to complete answers
       an error); §6.1 — a server-initiated bidirectional stream received by a client is
@@ -56,6 +64,10 @@ structure J where
   /-- the transport has just answered a call on the endpoint's control stream (or its opening) with a
       stream error: the call h3 is in must end with a connection error -/
   mustErr : Option String := none
+  /-- the application has dropped the driver object (`<task>.D=ok`): its calls are over; the close calls
+      made from here on are the application's (`Drop`), at most one (R-05) -/
+  dropped : Bool := false
+  appCloses : Nat := 0
   bad : Option String := none
   unknown : Bool := false
 deriving Repr
@@ -167,6 +179,8 @@ def onFired (j : J) (label : String) : J :=
 
 /-- a call completes -/
 def onResult (j : J) (call res : String) : J :=
+  -- `<task>.D`: not a call on the driver — the application lets go of it
+  if call.endsWith ".D" then (if res == "ok" then { j with dropped := true } else j) else
   let j :=
     match j.mustErr with
     | some lab => if res.startsWith "err:" then { j with mustErr := none }
@@ -189,6 +203,10 @@ def onResult (j : J) (call res : String) : J :=
     if j.lateCalls.contains call then j.fail s!"{call}={res}-after-the-transport-failed" else j
 
 def onClose (j : J) (c : Nat) : J :=
+  if j.dropped then
+    -- the `Drop`'s close: the application's, not the error path's (R-05); at most one
+    if j.appCloses == 0 then { j with appCloses := 1 } else j.fail "second-close-after-the-drop"
+  else
   let j := if j.firstErr.isSome then j.fail "close-after-the-error-was-reported" else j
   { j with closes := j.closes ++ [c] }
 
